@@ -147,6 +147,29 @@ def eval_same_name_pair(case):
 
 # ---- (b) output lines -------------------------------------------------------------
 
+_nullable = {}
+
+
+def nullable_strings():
+    """(interface, message, argument) of every string argument a description marks allow-null: libwayland prints `nil`
+    for such an argument when the program passes NULL."""
+    if not _nullable:
+        import xml.etree.ElementTree as ET
+        for f in protoxml.discover(os.path.join(sut.REPO, 'resources', 'protocols')):
+            try:
+                root = ET.parse(f).getroot()
+            except ET.ParseError:
+                continue
+            for i in root.findall('interface'):
+                for m in i:
+                    if m.tag in ('request', 'event'):
+                        for a in m.findall('arg'):
+                            if a.get('type') == 'string' and a.get('allow-null') == 'true':
+                                _nullable[(i.get('name'), m.get('name'), a.get('name'))] = True
+        _nullable[None] = True
+    return _nullable
+
+
 def synth_lines(iface, d, tier):
     """-> list of (line, message name, expected args [(name, kind, extra)])"""
     tp = top()
@@ -192,6 +215,9 @@ def synth_lines(iface, d, tier):
                 elif at == 'fixed':
                     sargs.append(['fixed', 384])
                     exp.append((an, 'float', None))
+                elif at == 'string' and variant == 1 and (iface, mname, an) in nullable_strings():
+                    sargs.append(['nil'])       # a NULL string: shown as a nil without an interface
+                    exp.append((an, 'nil', None))
                 elif at == 'string':
                     sargs.append(['str', 's'])
                     exp.append((an, 'str', None))
@@ -215,8 +241,9 @@ def synth_lines(iface, d, tier):
                 break
             # requests are sent, events received (client-side log); messages is name-keyed so direction is not recoverable
             out.append((M(True, iface, target, mname, sargs), mname, exp))
-            if not any(e for (_, _, _, e) in args) and not any(protoxml.HAND.get((iface, mname, an)) for (an, _, _, _) in args):
-                break      # no enum argument: one variant is enough
+            if not any(e for (_, _, _, e) in args) and not any(protoxml.HAND.get((iface, mname, an)) for (an, _, _, _) in args) and \
+                    not any((iface, mname, an) in nullable_strings() for (an, _, _, _) in args):
+                break      # no enum argument, no nullable string: one variant is enough
             if (iface, mname) == ('wl_display', 'delete_id'):
                 break
     return pre, out, skipped
@@ -303,6 +330,8 @@ def synth_xml(version, variant=''):
       <arg name="first_v%(v)d%(x)s" type="uint" enum="mode"/>
       <arg name="second_v%(v)d%(x)s" type="object" interface="zz_target_v%(v)d%(x)s" allow-null="true"/>
       <arg name="third" type="uint" enum="zz_only_v%(v)d.kind"/>
+      <arg name="fourth" type="uint" enum="zz_holder.mode"/>
+      <arg name="fifth" type="uint" enum="zz_enum_only.level"/>
     </request>
     <enum name="kind">
       <entry name="own_kind_must_not_be_used" value="1"/>
@@ -313,6 +342,20 @@ def synth_xml(version, variant=''):
       <entry name="hex%(v)d%(x)s" value="0x%(v)d0"/>
     </enum>
   </interface>
+  <!-- described in every file too, but the file with the HIGHEST zz_iface has the LOWEST zz_holder: a qualified
+       reference goes to the highest version of the interface it names, wherever that was described -->
+  <interface name="zz_holder" version="%(hv)d">
+    <request name="hold"><arg name="held%(hv)d" type="int"/></request>
+    <enum name="mode">
+      <entry name="holder_mode_of_version_%(hv)d" value="2"/>
+    </enum>
+  </interface>
+  <!-- an interface without requests or events, described in several versions -->
+  <interface name="zz_enum_only" version="%(v)d">
+    <enum name="level">
+      <entry name="level_of_version_%(v)d" value="3"/>
+    </enum>
+  </interface>
   <interface name="zz_only_v%(v)d" version="1">
     <enum name="kind">
       <entry name="theirs%(v)d" value="1"/>
@@ -320,7 +363,7 @@ def synth_xml(version, variant=''):
     <event name="ping"><arg name="p%(v)d" type="int"/></event>
   </interface>
 </protocol>
-''' % {'v': version, 'x': variant}
+''' % {'v': version, 'x': variant, 'hv': 10 - version}
 
 
 def eval_precedence(case):
@@ -349,6 +392,15 @@ def eval_precedence(case):
         third = protocol.look_up_enum('zz_iface', 'poke', 2, 1)
         if third != ['theirs%d' % hv]:
             V.append(Violation('protocol.qualified_enum', case, {'expected': ['theirs%d' % hv], 'observed': third}))
+        lowest = min(v for v, _ in order)
+        fourth = protocol.look_up_enum('zz_iface', 'poke', 3, 2)
+        if fourth != ['holder_mode_of_version_%d' % (10 - lowest)]:
+            V.append(Violation('protocol.qualified_enum_version', case, {'expected': ['holder_mode_of_version_%d' % (10 - lowest)], 'observed': fourth}))
+        fifth = protocol.look_up_enum('zz_iface', 'poke', 4, 3)
+        if fifth != ['level_of_version_%d' % hv]:
+            V.append(Violation('protocol.enum_only_interface', case, {'expected': ['level_of_version_%d' % hv], 'observed': fifth}))
+        if protocol.get_arg_name('zz_holder', 'hold', 0) != 'held%d' % (10 - lowest):
+            V.append(Violation('protocol.precedence_other_interface', case, {'interface': 'zz_holder', 'expected_version': 10 - lowest}))
         ok = False
         for x in winners:
             sfx = '%d%s' % (hv, x)
